@@ -31,6 +31,7 @@ WEAK = {
     "RotateDropsBuf": ("C15_weak_RotateDropsBuf.cfg", {"AckedDurable", "AckedReadable", "PruneWholeOldest"}),
     "DecoderAcceptsBadCRC": ("C15_weak_DecoderAcceptsBadCRC.cfg", {"NoInvented"}),
     "PruneNewest": ("C15_weak_PruneNewest.cfg", {"PruneWholeOldest"}),
+    "IndexWidth3Only": ("C15_weak_IndexWidth3Only.cfg", {"AckedReadable", "SearchExact", "PruneWholeOldest", "AckedDurable"}),
 }
 
 ACTS_SEEN = {}
@@ -148,6 +149,28 @@ def library(quick):
         {"name": "lib-corrupt-head", "headLimit": 0, "totalLimit": 0, "steps":
             [R, WS(), WS(), WS(), S("Stop"), S("Corrupt", file=-1, pos=3, cls="data"), R, O, WS(), O]},
     ]
+
+
+def boundary_family(b):
+    """Long histories: the counterexample TLC finds for Weak_IndexWidth3Only (WidthLimit = 2: rotate past the
+    boundary, stop, reopen, read) scaled to where the decimal width of the real file names changes (b = 10, 100,
+    1000; <head>.%03d).  One tiny record per file, a small total-size limit keeps only the newest few files, the
+    #ENDHEIGHT markers of four heights are spread over the files around index b; then stop/reopen, search and
+    read everything, rotate and prune again, reopen again."""
+    R, O = S("Reopen"), S("Observe")
+    steps = [R]
+    for i in range(b + 3):
+        if i in (b - 2, b - 1, b, b + 1):
+            steps += [S("Write", kind="eh"), S("Flush")]
+        else:
+            steps += [S("WriteSync", kind="in")]
+        steps.append(S("CheckHead"))
+        if i % 4 == 3 or i >= b - 3:
+            steps.append(S("CheckTotal"))
+    steps += [S("WriteSync", kind="in"), S("Stop"), R, O,
+              S("WriteSync", kind="in"), S("Write", kind="eh"), S("Flush"), S("CheckHead"), S("CheckTotal"), O,
+              S("WriteSync", kind="in"), S("CheckHead"), S("CheckTotal"), S("Search", h=4), O, S("Stop"), R, O]
+    return {"name": "lib-index-width-%d" % b, "headLimit": 1, "totalLimit": 300, "steps": steps, "fast": True}
 
 
 def enums(quick):
@@ -379,7 +402,7 @@ def run(ctx):
         scheds += behaviours_to_scheds(ctx, prefix, nsim)
     for i, s in enumerate(scheds):
         s["name"] = "tlc-%d" % i
-    lib = library(quick)
+    lib = library(quick) + [boundary_family(b) for b in (10, 100, 1000)]
     inp = {"scheds": lib + scheds, "enums": enums(quick), "random": 40 if quick else 600,
            "node": {"runs": 5 if quick else 24, "steps": 12 if quick else 20, "headLimit": 0, "offsets": 3}}
 
@@ -452,7 +475,7 @@ def run(ctx):
 
 def run_dev(ctx):
     sel = os.environ["VERIF_C15_DEV"].split(",")
-    inp = {"scheds": library(True) if "lib" in sel else [], "enums": [e for e in enums(True) if e["name"] in sel],
+    inp = {"scheds": (library(True) if "lib" in sel else []) + ([boundary_family(b) for b in (10, 100, 1000)] if "width" in sel else []), "enums": [e for e in enums(True) if e["name"] in sel],
            "random": 20 if "random" in sel else 0,
            "node": {"runs": int(os.environ.get("VERIF_C15_NODERUNS", "3")) if "node" in sel else 0,
                     "steps": int(os.environ.get("VERIF_C15_NODESTEPS", "10")), "headLimit": 0, "offsets": 3}}
@@ -481,7 +504,10 @@ def run_dev(ctx):
 def add_violation(verdict, v, extra=None):
     row = v["row"]
     sig = {"inv": v["inv"], "class": re.sub(r'\d+', 'N', v["class"]), "ev": row["ev"]}
-    payload = {"failing_step": slim(row), "prefix": [slim(r) for r in v["prefix"]], "tlc": {"inv": v["inv"], "class": v["class"]}}
+    pre = [slim(r) for r in v["prefix"]]
+    for r in pre[:-20]:            # long histories: the schedule is in the events, keep the projections of the end only
+        r.pop("post", None)
+    payload = {"failing_step": slim(row), "prefix": pre, "tlc": {"inv": v["inv"], "class": v["class"]}}
     payload.update(extra or {})
     verdict.add(sig, payload)
 
